@@ -760,4 +760,4 @@ def _text(name):
     return f
 
 
-CHECKS = {"C11": _text("check_C11"), "C15": _text("check_C15"), "C14": _text("check_C14"), "C12": _text("check_C12"), "C13": _text("check_C13"), "C05": check_C05, "C06": check_C06, "C07": check_C07, "C01": check_C01, "C02": check_C02, "C03": check_C03, "C04": check_C04, "C08": check_C08, "C09": check_C09, "C10": check_C10}
+CHECKS = {"C19": _text("check_C19"), "C11": _text("check_C11"), "C15": _text("check_C15"), "C14": _text("check_C14"), "C12": _text("check_C12"), "C13": _text("check_C13"), "C05": check_C05, "C06": check_C06, "C07": check_C07, "C01": check_C01, "C02": check_C02, "C03": check_C03, "C04": check_C04, "C08": check_C08, "C09": check_C09, "C10": check_C10}
